@@ -290,7 +290,7 @@ def run_case(ex, case):
     V["b.c"] = ex.real("bc")
     sp = case["sp"]
     # one program per path (forks on zero divisors must not multiply across programs)
-    pick = ex.choose(len(progs))
+    pick = 0 if case.get("seq") else ex.choose(len(progs))
     if case.get("seq"):
         # program sequences on the SAME evaluators: a sibling program (same shape, another literal; or the
         # neighbour in the family) is parsed, built and evaluated first, then the program under test is checked
